@@ -195,6 +195,18 @@ def _is_status_of(e, p):
 
 
 # ============================================================================ C03-R6 / C04-F
+def _payrequest_aggs(F, b):
+    """[(body, block, stmt)] constructing cln_rpc PayRequest in the pay body or in a same-file pure helper it calls"""
+    import rules_ext
+    out = []
+    for hb in [b] + rules_ext._pure_callee_bodies(F, b):
+        for bi in sorted(hb.reachable):
+            for s in hb.blocks[bi]["s"]:
+                if s["k"] == "assign" and s["rv"]["k"] == "agg" and s["rv"].get("adt", "").endswith("::PayRequest"):
+                    out.append((hb, bi, s))
+    return out
+
+
 def r6_verbatim(C, rep, rid):
     rep.rule(rid, "every PayRequest forwards bolt11, amount, maxfee, maxdelay, retry_for verbatim; maxfeepercent / exemptfee / partial_msat stay unset (sibling branches agree)")
     F, X = C.F, C.X
@@ -203,10 +215,13 @@ def r6_verbatim(C, rep, rid):
     for m in provider_model(C):
         b = m.pay
         fn = m.pay_root
-        aggs = [(bi, s) for bi in sorted(b.reachable) for s in b.blocks[bi]["s"] if s["k"] == "assign" and s["rv"]["k"] == "agg" and s["rv"].get("adt", "").endswith("::PayRequest")]
+        aggs = _payrequest_aggs(F, b)
         rep.anchor(rid, "PayRequest constructions", len(aggs), 1, fn=fn)
-        for bi, s in aggs:
-            d = {f: strip(X.operand(b, o)) for f, o in zip(s["rv"]["fields"], s["rv"]["ops"])}
+        for hb, bi, s in aggs:
+            d = {f: strip(X.operand(hb, o)) for f, o in zip(s["rv"]["fields"], s["rv"]["ops"])}
+            if hb is not b:
+                # built by a same-file helper (`fn pay_request(&self, req) -> Result<PayRequest>`): its parameters are the caller's arguments
+                d = {f: strip(mm.expand_params(F, X, e, depth=2)) for f, e in d.items()}
             where = loc(s["sp"])
 
             def req_field(e, name):
@@ -232,8 +247,8 @@ def r6_verbatim(C, rep, rid):
                 rep.ob(rid, ok, fn, what, where=where, how=show(d.get(fld))[:70] if d.get(fld) else "", detail="" if ok else "PayRequest.%s is %s" % (fld, show(d.get(fld))[:100] if d.get(fld) else "?"))
         # the RPC gets that aggregate
         for p in [c for c in b.calls if c.is_trait_method("rpc::ClnRpc", "pay")]:
-            e = strip(X.operand(b, p.args[1]))
-            ok = all(a[0] == "agg" and a[1].endswith("::PayRequest") for a in alts(e))
+            e = strip(mm.inline_pure(F, X, strip(X.operand(b, p.args[1])), depth=1))
+            ok = all((a[0] == "agg" and a[1].endswith("::PayRequest")) or (a[0] == "call" and a[1] == "std::ops::FromResidual::from_residual") for a in alts(e)) and any(a[0] == "agg" for a in alts(e))
             rep.ob(rid, ok, fn, "the pay RPC is given that request", where=p.loc, how="%d alternative(s)" % len(alts(e)), detail="" if ok else "pay RPC argument is %s" % show(e)[:80], nontrivial=False)
 
 
@@ -256,13 +271,12 @@ def c_retry_cap(C, rep, rid):
         for m in provider_model(C):
             if m.self_adt != st:
                 continue
-            for bi in sorted(m.pay.reachable):
-                for s in m.pay.blocks[bi]["s"]:
-                    if s["k"] == "assign" and s["rv"]["k"] == "agg" and s["rv"].get("adt", "").endswith("::PayRequest") and "retry_for" in s["rv"]["fields"]:
-                        e = strip(X.operand(m.pay, s["rv"]["ops"][s["rv"]["fields"].index("retry_for")]))
-                        for y in walk(e):
-                            if y[0] == "field" and y[2].split("<")[0] == st and y[4][0] == "param":
-                                fields.add(y[1])
+            for hb, bi, s in _payrequest_aggs(F, m.pay):
+                if "retry_for" in s["rv"]["fields"]:
+                    e = strip(X.operand(hb, s["rv"]["ops"][s["rv"]["fields"].index("retry_for")]))
+                    for y in walk(e):
+                        if y[0] == "field" and y[2].split("<")[0] == st and y[4][0] == "param":
+                            fields.add(y[1])
         for b, bi, s in F.aggregates(st):
             fl = [f for f in s["rv"]["fields"] if f in fields]
             if not fl:
